@@ -1,0 +1,10 @@
+//go:build verif
+
+// Contracts for package channelsubscriptions (comment-only; compiled only with -tags verif).
+package channelsubscriptions
+
+//@ type ChannelSubscriptions
+//@   nonnil subscriptions
+
+//@ func (*channelsubscriptions.ChannelSubscriptions).Subscribe {C17,C20}
+//@   modifies cs.subscriptions
